@@ -134,11 +134,22 @@ def run(tier, seed, t0):
             for j in range(3):
                 ucases.append(('u%d_%d' % (tid, j), tid, t, show(gen_val(t, rng, 4)), rng.choice(['', 'aa'])))
         ures = run_cases(exe, [case_line(cid, 'rt', tid, sexp(t), v, tail or '-') for cid, tid, t, v, tail in ucases])
+        # the encode side is judged too: a value whose round trip was skipped because to_vec failed must be one the MODEL's
+        # encoder refuses as well (a NaN member); a zero-size guard added to the serializer of arrays / tuples / options
+        # would otherwise turn every case into an accepted `skip encerr`
+        uenc = {r['cid']: r for r in stage_enc(cfg, exe, driver, [(cid, tid, t, v) for cid, tid, t, v, tail in ucases if (ures.get(cid) or '').startswith('skip encerr')])}
         stats['evaluations'] += len(ucases)
         for cid, tid, t, v, tail in ucases:
             r = ures.get(cid)
             classes['usable:' + (r or 'missing').split(' ')[0]] += 1
-            if r is None or not (r.startswith('ok same') or r.startswith('skip')):
+            if r is not None and r.startswith('skip encerr'):
+                e = uenc.get(cid)
+                if e is None or e['status'] != 'run' or not e['agree'] or (e['model'] or '').startswith('ok'):
+                    failures.append({'class': 'zst-unusable', 'key': sexp(t),
+                                     'what': 'an array/tuple/option of zero-sized types does not serialize although the model encodes it: %s %s -> %s, model %s [%s]'
+                                             % (sexp(t), v, (e or {}).get('impl'), (e or {}).get('model'), cfg)})
+                continue
+            if r is None or not (r.startswith('ok same') or r.startswith('skip from_val')):
                 failures.append({'class': 'zst-unusable', 'key': sexp(t),
                                  'what': 'an array/tuple/option of zero-sized types does not round-trip: %s %s -> %s [%s]' % (sexp(t), v, r, cfg)})
         # (4) agreement with schema validation: for every sequence/set type (with a schema) whose
